@@ -82,6 +82,52 @@ bool c04_chain(unsigned v, lzma_filter *f, c04_chain_store *st)
 	return true;
 }
 
+void c04_chain_mods(c04_chain_store *st, uint64_t mods, bool encoder)
+{
+	lzma_options_lzma *o = &st->lzma;
+	const unsigned pm = (unsigned)(mods & 0xFF) % 6, lm = (unsigned)((mods >> 8) & 0xFF) % 76;
+	const unsigned dm = (unsigned)((mods >> 16) & 0xFF) % 9, em = (unsigned)((mods >> 24) & 0xFF) % 4;
+	static const uint32_t dsz[9] = { 0, 0, 1, 4095, 4096, 4097, 65536, 1u << 20, (1u << 20) + 1 };
+	if (dm != 0 && !(encoder && dsz[dm] < 4096))
+		o->dict_size = dsz[dm];
+	if (lm != 0) {
+		// the 15 (lc, lp) pairs with lc + lp <= 4, times pb 0..4
+		unsigned k = lm - 1, pair = k / 5, lc = 0, lp = 0;
+		for (unsigned a = 0, idx = 0; a <= 4; ++a)
+			for (unsigned b = 0; a + b <= 4; ++b, ++idx)
+				if (idx == pair) {
+					lc = a;
+					lp = b;
+				}
+		o->lc = lc;
+		o->lp = lp;
+		o->pb = k % 5;
+	}
+	if (em == 1)
+		o->ext_flags = 0;
+	else if (em == 2)
+		o->ext_flags = LZMA_LZMA1EXT_ALLOW_EOPM;
+	else if (em == 3 && !encoder)
+		o->ext_flags = 0x02;
+	if (pm != 0) {
+		const size_t base = o->dict_size < 4096 ? 4096 : o->dict_size;
+		const size_t n = pm == 1 ? 1 : pm == 2 ? 100 : pm == 3 ? base : pm == 4 ? base + 1000 : 64;
+		st->heap_preset = malloc(n);
+		if (st->heap_preset == NULL)
+			exit(3);
+		for (size_t i = 0; i < n; ++i)
+			st->heap_preset[i] = st->preset[i % 64];
+		o->preset_dict = st->heap_preset;
+		o->preset_dict_size = (uint32_t)n;
+	}
+}
+
+void c04_chain_done(c04_chain_store *st)
+{
+	free(st->heap_preset);
+	st->heap_preset = NULL;
+}
+
 // ---------------------------------------------------------------------------------------------------------------
 // the driver
 // ---------------------------------------------------------------------------------------------------------------
@@ -456,21 +502,24 @@ bool c04_run_stream_ep(const c04_op *op, c04_res *r, lzma_stream *reuse, unsigne
 			c04_bad(r, "harness:no-such-chain");
 			return true;
 		}
-		if (op->p[0] == 8 || op->p[0] == 9) {
+		if (op->p[0] == 8 || op->p[0] == 9 || (op->p[0] == 7 && ((op->p[3] >> 24) & 0xFF) % 4 != 0)) {
 			st.lzma.ext_size_low = (uint32_t)op->p[1];
 			st.lzma.ext_size_high = (uint32_t)(op->p[1] >> 32);
 		}
+		if (op->p[0] < 24)
+			c04_chain_mods(&st, op->p[3], false);     // p3: decoder-side option modifiers (preset dictionary, lc/lp/pb, ...)
 		lzma_ret ir = lzma_raw_decoder(&strm, f);
 		r->init_ret = (int)ir;
 		// invalid option structs handed in by the application (chains >= 24) may be answered with LZMA_PROG_ERROR
 		c04_check_ret(r, ep, (int)ir, R_OK | R_MEM | R_OPTIONS | (op->p[0] >= 24 ? R_PROG : 0));
 		if (op->p[0] >= 24 && ir != LZMA_OPTIONS_ERROR && ir != LZMA_PROG_ERROR && ir != LZMA_MEM_ERROR)
 			c04_bad(r, "raw-init-accepted-invalid-chain-%u:%d", (unsigned)op->p[0], (int)ir);
-		if (op->p[0] < 24 && ir == LZMA_OPTIONS_ERROR)
+		if (op->p[0] < 24 && op->p[3] == 0 && ir == LZMA_OPTIONS_ERROR)
 			c04_bad(r, "raw-init-refused-valid-chain-%u", (unsigned)op->p[0]);
 		if (ir == LZMA_OK)
 			drive(&strm, op, &cfg, r, &g);
 		finish_strm(&strm, r);
+		c04_chain_done(&st);     // (the preset dictionary is copied by the initialisation; kept until here anyway)
 		return true;
 	}
 	if (!strcmp(ep, "block")) {
